@@ -192,9 +192,37 @@ fn replay(path: &str) -> i32 {
         .unwrap_or(if solver.starts_with("rec") { drive::SolverCfg::REC } else { drive::SolverCfg::SLG });
     let p = drive::load_program(program).expect("program lowers");
     let peeled = drive::peel(&p, goal).expect("goal lowers");
+    println!("program:\n{}\ngoal: {}\nsolver: {}", program, goal, cfg.name());
+    if let Some(hist) = input.get("history").and_then(|h| h.as_array()) {
+        // a history violation: the recorded operations on ONE solver, then the goal; twice
+        let run = || {
+            let mut solver = drive::AnySolver::new(cfg);
+            for h in hist {
+                let h = h.as_str().unwrap_or("");
+                if let Some(g) = h.strip_prefix("first answer of ") {
+                    let pg = drive::peel(&p, g).expect("history goal lowers");
+                    let _ = solver.solve_multiple(&*p, &pg.ugoal, &mut |_a, _n| false);
+                } else {
+                    let pg = drive::peel(&p, h).expect("history goal lowers");
+                    let _ = solver.solve(&*p, &pg.ugoal);
+                }
+            }
+            let (r, _) = solver.solve(&*p, &peeled.ugoal);
+            drive::decode_caught(&p, &peeled, r)
+        };
+        let (h1, h2) = (run(), run());
+        println!("history: {}", serde_json::Value::Array(hist.clone()));
+        println!("answer after the history: {:?}", h1);
+        println!("answer on a fresh solver: {:?}", drive::solve_fresh(&p, &peeled, cfg).0);
+        if h1 != h2 {
+            println!("NON-DETERMINISTIC: second run gave {:?}", h2);
+            return 2;
+        }
+        println!("recorded: kind={} site={} :: {}", v["kind"], v["site"], v["what"]);
+        return 0;
+    }
     let (r1, _) = drive::solve_fresh(&p, &peeled, cfg);
     let (r2, _) = drive::solve_fresh(&p, &peeled, cfg);
-    println!("program:\n{}\ngoal: {}\nsolver: {}", program, goal, cfg.name());
     println!("answer: {:?}", r1);
     if r1 != r2 {
         println!("NON-DETERMINISTIC: second run gave {:?}", r2);
